@@ -30,7 +30,7 @@ theorem readRR_tsig (V : Verifier) (tbl : List AlgEntry) (strict : Bool) (w : By
     (h : readRR V tbl strict w kr now rm multi sec count i st = .ok st') :
     sec = 3 ∧ rd16 w (p + 2) = ConstsC14.classAny ∧ i + 1 = count ∧ (strict = true → rd32 w (p + 4) = 0)
       ∧ p + 10 + rd16 w (p + 8) ≤ w.length ∧ st'.cur = p + 10 + rd16 w (p + 8)
-      ∧ ∃ owner k rd, fromWire w st.cur = .ok (owner, k)
+      ∧ ∃ owner rd, decodeName w st.cur = .ok owner
           ∧ rdataParse w (p + 10) (p + 10 + rd16 w (p + 8)) = .ok rd
           ∧ ((resolveKey kr owner rd = .ok none ∧ st'.tsig = some ⟨owner, rd, none⟩ ∧ st'.ctx = st.ctx)
             ∨ ∃ key c c', resolveKey kr owner rd = .ok (some key)
@@ -47,7 +47,7 @@ theorem readRR_tsig (V : Verifier) (tbl : List AlgEntry) (strict : Bool) (w : By
   split at h; · cases h
   rename_i hlen
   split at h; · cases h
-  rename_i owner k hfw
+  rename_i owner hfw
   split at h; · cases h
   rename_i rd hrd
   have hsec : sec = 3 ∧ rd16 w (p + 2) = ConstsC14.classAny ∧ i + 1 = count := by
@@ -62,12 +62,12 @@ theorem readRR_tsig (V : Verifier) (tbl : List AlgEntry) (strict : Bool) (w : By
   · cases h
   · rename_i hres
     cases h
-    exact ⟨rfl, owner, k, rd, hfw, hrd, Or.inl ⟨hres, rfl, rfl⟩⟩
+    exact ⟨rfl, owner, rd, hfw, hrd, Or.inl ⟨hres, rfl, rfl⟩⟩
   · rename_i key hres
     split at h; · cases h
     rename_i c c' hv
     cases h
-    exact ⟨rfl, owner, k, rd, hfw, hrd, Or.inr ⟨key, c, c', hres, hv, rfl, rfl⟩⟩
+    exact ⟨rfl, owner, rd, hfw, hrd, Or.inr ⟨key, c, c', hres, hv, rfl, rfl⟩⟩
 
 /-- a section loop either skips all its records, or (additional section only) skips all but the last and
 accepts a TSIG record there -/
